@@ -53,6 +53,7 @@ class Explorer(object):
         self.stopped = {}          # wf id -> (state, task ids at stop time)
         self.trace = []
         self.taint = None          # a known mechanism already seen on path
+        self.cas_pos = 0
 
     # -- choices ------------------------------------------------------------
     def outcome(self, task_name):
@@ -149,13 +150,27 @@ class Explorer(object):
             if o is None:
                 continue
             if o['state'] != w['state']:
-                ok = w['state'] in WF_MOVES.get(o['state'], set())
-                if o['state'] in ('ERROR', 'CANCELLED') and \
-                        operator != 'rerun_workflow':
+                # the individual compare-and-swap updates of this delivery
+                # must each be a legal move and lead from the old to the
+                # new state
+                chain = [(c[2], c[3]) for c in self.w.cas_log[self.cas_pos:]
+                         if c[0] == 'wf' and c[1] == wid and c[4]
+                         and c[2] != c[3]]
+                cur = o['state']
+                ok = bool(chain)
+                for a, b in chain:
+                    if a != cur or b not in WF_MOVES.get(a, set()):
+                        ok = False
+                    if a in ('ERROR', 'CANCELLED') and \
+                            operator != 'rerun_workflow':
+                        ok = False
+                    cur = b
+                if cur != w['state']:
                     ok = False
                 if not ok:
                     viol('illegal-workflow-transition', 'wf-transition',
-                         move='%s->%s' % (o['state'], w['state']))
+                         move='%s->%s via %s' % (o['state'], w['state'],
+                                                 chain))
             elif o['state'] in TERMINAL_WF and o['output'] != w['output']:
                 viol('finished-workflow-output-changed', 'wf-output-changed')
         for tid, t in new.tasks.items():
@@ -200,6 +215,7 @@ class Explorer(object):
                 viol('accepted-action-result-changed',
                      'action-result-changed')
         self.snap = new
+        self.cas_pos = len(self.w.cas_log)
 
     # -- reporting -------------------------------------------------------------
     def summary(self, wf_ex_id):
